@@ -406,7 +406,9 @@ SPECS["C15"] = {
                    "dispatched, Flush + WaitForFlush: every datapoint dispatched before the flush is delivered upstream in exactly one request, an empty flush posts nothing, the "
                    "semaphores are fully returned. PIPELINE-CONC: the same pipeline with two dispatcher goroutines (two datapoints each, a yield before each dispatch), an upstream with "
                    "latency (the request is in flight while every other goroutine runs) and three manual flushes: at each flush notification everything whose dispatch had returned before "
-                   "the flush began is delivered, nothing twice; at the end delivered = dispatched, no request in flight, semaphores returned; a blocked harness is a violation.",
+                   "the flush began is delivered, nothing twice; at the end delivered = dispatched, no request in flight, semaphores returned; a blocked harness is a violation. CONSOLIDATOR: the real MetricConsolidator alone "
+                   "(1..3 slots), three epochs of 0..2 dispatches separated by flushes into a harness sink; the flushed slices, examined only at the end, hold exactly their epoch's "
+                   "datapoints (no aliasing between what was handed over and the maps new datapoints land in).",
     "bounds": {"quick": "pipeline: 0, 1, 3 datapoints over 2 names, 1..3 consolidator slots; <= 5 attempts (unwinding bound: longer scripts are cut by an assumption); invalid-UTF-8 tags of 1..2 arbitrary bytes; 1..2 series with 2..3 tags each (symbolic prefix region:/env:/none, one symbolic byte), two dynamic header names",
                "thorough": "same"},
     "outside": ["concurrent dispatch versus Drain/Fill of the consolidator and the semaphores under REAL scheduling (PIPELINE-CONC explores the cooperative interleavings only: goroutines switch at blocking "
@@ -416,9 +418,9 @@ SPECS["C15"] = {
     "jobs": [
         {"pkg": "./pkg/statsd", "harness": "pkg/statsd", "mode": "machine",
          "entries": {"quick": ["VerifC15_Retry2", "VerifC15_Retry3", "VerifC15_Retry5", "VerifC15_RetryNone", "VerifC15_Utf8_1", "VerifC15_Utf8_2",
-                               "VerifC15_Split_1_2", "VerifC15_Split_1_3", "VerifC15_Split_2_2", "VerifC15_Header", "VerifC15_Pipeline0", "VerifC15_Pipeline1", "VerifC15_Pipeline3", "VerifC15_PipelineConc", "VerifC15_Twin"]},
+                               "VerifC15_Split_1_2", "VerifC15_Split_1_3", "VerifC15_Split_2_2", "VerifC15_Header", "VerifC15_Pipeline0", "VerifC15_Pipeline1", "VerifC15_Pipeline3", "VerifC15_PipelineConc", "VerifC15_Consolidator", "VerifC15_Twin"]},
          "reach": {"VerifC15_Retry3": ["dropped", "sent", "retried"], "VerifC15_Utf8_1": ["posted"], "VerifC15_Split_2_2": ["split"], "VerifC15_Header": ["header"], "VerifC15_Pipeline3": ["pipeline"],
-                   "VerifC15_PipelineConc": ["pipeline-conc"]},
+                   "VerifC15_PipelineConc": ["pipeline-conc"], "VerifC15_Consolidator": ["consolidated"]},
          "blocked_is_violation": True,
          "twin": {"VerifC15_Twin": True},
          "limits": {"quick": {"timeout": "600s"}, "thorough": {"timeout": "600s"}}},
